@@ -38,7 +38,7 @@ type raceResp struct {
 const respPrefix = "C13RESP "
 
 // hangLimit: a program takes microseconds; a worker silent for this long is hung.
-const hangLimit = 15 * time.Second
+const hangLimit = 10 * time.Second
 
 var perms = map[int][][]int{
 	1: {{0}},
@@ -330,19 +330,23 @@ func raceSig(funcs []string) (string, bool) {
 
 var reGoroutineHdr = regexp.MustCompile(`^goroutine \d+ [^\[]*\[([^\]]*)\]:`)
 
-// blockedInEnvLocks looks at a SIGQUIT goroutine dump and returns a description of the
-// goroutines that are blocked acquiring a sync mutex from inside package env.
-func blockedInEnvLocks(dump string) []string {
-	var out []string
+// blockedInEnvLocks looks at a SIGQUIT goroutine dump of the worker process. It returns
+// the worker goroutines (those of runReal) that are blocked acquiring a sync mutex from
+// inside package env, and whether that is ALL worker goroutines still alive: locks of a
+// run's scopes are only ever held by that run's worker goroutines inside env calls, so
+// "every live worker is waiting for a lock" is a deadlock and not a slow machine.
+func blockedInEnvLocks(dump string) (blocked []string, all bool) {
+	workers := 0
 	for _, g := range strings.Split(dump, "\n\n") {
 		lines := strings.Split(strings.TrimSpace(g), "\n")
 		if len(lines) == 0 {
 			continue
 		}
 		m := reGoroutineHdr.FindStringSubmatch(lines[0])
-		if m == nil {
+		if m == nil || !strings.Contains(g, "c13.runReal.func1") {
 			continue
 		}
+		workers++
 		st := m[1]
 		if k := strings.Index(st, ","); k >= 0 {
 			st = st[:k]
@@ -352,28 +356,20 @@ func blockedInEnvLocks(dump string) []string {
 		}
 		var lockFn, envFn string
 		for _, l := range lines[1:] {
-			if strings.HasPrefix(l, "\t") {
+			if strings.HasPrefix(l, "\t") || !strings.Contains(l, "(") {
 				continue
 			}
 			if lockFn == "" && strings.HasPrefix(l, "sync.(*") {
 				lockFn = l[:strings.LastIndex(l, "(")]
 			}
-			if envFn == "" && strings.HasPrefix(l, envPkg) {
+			if envFn == "" && strings.HasPrefix(l, envPkg) && !strings.Contains(l, "Verif") {
 				envFn = l[len(envPkg):strings.LastIndex(l, "(")]
 			}
 		}
-		if envFn != "" && lockFn != "" && !strings.Contains(envFn, "Verif") {
-			out = append(out, envFn+" blocked in "+lockFn)
-		} else if envFn != "" && lockFn != "" {
-			// innermost env frame is the wrapper: find the next env frame
-			for _, l := range lines[1:] {
-				if strings.HasPrefix(l, envPkg) && !strings.Contains(l, "Verif") {
-					out = append(out, l[len(envPkg):strings.LastIndex(l, "(")]+" blocked in "+lockFn)
-					break
-				}
-			}
+		if envFn != "" && lockFn != "" {
+			blocked = append(blocked, envFn+" blocked in "+lockFn)
 		}
 	}
-	sort.Strings(out)
-	return out
+	sort.Strings(blocked)
+	return blocked, workers > 0 && len(blocked) == workers
 }
